@@ -128,6 +128,8 @@ pub struct Outcome {
     pub res: String,  // ok | err | nack | disc | disc_with | none | own
     pub read: String, // "" | all | one | drop
     pub code: i64,
+    pub rs: i64,  // MQTT 5 acknowledgement: length of the reason string (-1 = none)
+    pub up: i64,  // ... number of user properties (each "k<i>" = 8 bytes "vvvvvvvv")
 }
 
 impl Outcome {
@@ -136,10 +138,27 @@ impl Outcome {
             res: v.get("o").and_then(Value::as_str).unwrap_or("ok").to_string(),
             read: v.get("read").and_then(Value::as_str).unwrap_or("").to_string(),
             code: v.get("code").and_then(Value::as_i64).unwrap_or(0x80),
+            rs: v.get("rs").and_then(Value::as_i64).unwrap_or(-1),
+            up: v.get("up").and_then(Value::as_i64).unwrap_or(0),
         }
     }
     fn ok() -> Outcome {
-        Outcome { res: "ok".into(), read: String::new(), code: 0 }
+        Outcome { res: "ok".into(), read: String::new(), code: 0, rs: -1, up: 0 }
+    }
+    /// reason string and user properties the application attaches to its acknowledgement
+    fn dress(&self, mut a: v5::PublishAck) -> v5::PublishAck {
+        if self.rs >= 0 {
+            a = a.reason(ByteString::from("r".repeat(self.rs as usize)));
+        }
+        if self.up > 0 {
+            let n = self.up;
+            a = a.properties(|p| {
+                for i in 0..n {
+                    p.push((ByteString::from(format!("k{i}")), ByteString::from("vvvvvvvv")));
+                }
+            });
+        }
+        a
     }
 }
 
@@ -211,7 +230,7 @@ impl Ctx {
         }
         let (tx, rx) = oneshot::channel();
         self.gates.borrow_mut().insert(h, tx);
-        rx.await.unwrap_or(Outcome { res: "cancelled".into(), read: String::new(), code: 0 })
+        rx.await.unwrap_or(Outcome { res: "cancelled".into(), read: String::new(), code: 0, rs: -1, up: 0 })
     }
 }
 
@@ -458,8 +477,8 @@ async fn pub5r(ctx: Rc<Ctx>, conn: i64, res: i64, mut p: v5::Publish) -> Result<
     match out.res.as_str() {
         "err" => Err(TestErr::Fail),
         "nack" => Err(TestErr::Nack(out.code as u8)),
-        "nack_ok" => Ok(p.ack().reason_code(pub_reason(out.code as u8))),
-        _ => Ok(p.ack()),
+        "nack_ok" => Ok(out.dress(p.ack().reason_code(pub_reason(out.code as u8)))),
+        _ => Ok(out.dress(p.ack())),
     }
 }
 
@@ -2003,6 +2022,8 @@ pub async fn run_conn(ctx: Rc<Ctx>, cmds: Vec<Value>) {
                                 res: "ok".into(),
                                 read: c.get("read").and_then(Value::as_str).unwrap_or("").to_string(),
                                 code: 0,
+                                rs: -1,
+                                up: 0,
                             });
                         }
                         idle().await;
